@@ -4,6 +4,7 @@ import Proofs.C13.Feistel
 import Proofs.C13.Rs1024
 import Proofs.C13.Bits
 import Proofs.C13.Codec
+import Proofs.C13.Dispatch
 /-!
 # C13 — mnemonics and seeds: entropy round-trips, checksums bind, thresholds recover (DESIGN.md §3 C13)
 
@@ -216,6 +217,28 @@ theorem bip85_is_hmac (hm : Bytes → Bytes → Bytes) (key : Bytes) :
     bip85Entropy hm key = hm ("bip-entropy-from-k".toList.map fun c => UInt8.ofNat c.toNat) key := by
   unfold bip85Entropy
   congr 1
+
+/-! ## dispatch — which scheme claims a sentence -/
+
+/-- `dispatch._bip39_seed_type(mnemonic, lang)`: for a sentence of 12..24 words all in the NAMED language's list,
+    the answer is "bip39" exactly when the indexes IN THAT LIST are the BIP39 encoding of some entropy — whatever
+    the same words spell in another list that shares them -/
+theorem dispatch_bip39_verdict_is_named_language (H : Bytes → Bytes) (hH : ∀ b, (H b).length = 32)
+    (idx : List Nat) (hn : idx.length ∈ [12, 15, 18, 21, 24]) (hlt : ∀ i ∈ idx, i < 2048) :
+    bip39SeedType H idx.length true idx = "bip39" ↔
+      ∃ e, bip39Indexes H e = some idx ∧ e.length = idx.length / 3 * 32 :=
+  bip39SeedType_eq_bip39_iff H hH idx hn hlt
+
+/-- … a word outside the named list: no BIP39 claim; any other word count: "bip39_wordlist"; SLIP39 goes first,
+    Electrum second, BIP39 last, and `seed_type_from_mnemonic` is the first of the plural answer -/
+theorem dispatch_order (H : Bytes → Bytes) (n : Nat) (idx : List Nat) (el : Option String) (b : String) :
+    bip39SeedType H n false idx = "" ∧
+    (n ≠ 0 → n ∉ [12, 15, 18, 21, 24] → bip39SeedType H n true idx = "bip39_wordlist") ∧
+    seedType true el b = "slip39" ∧ seedType false (some "segwit") b = "electrum_segwit" ∧
+    seedType false none b = b ∧ seedType false el b = (allSeedTypes false el b).headD "" := by
+  refine ⟨bip39SeedType_unknown H n idx, bip39SeedType_wrong_count H n idx, rfl, rfl, ?_, rfl⟩
+  unfold seedType allSeedTypes
+  by_cases hb : b = "" <;> simp [hb]
 
 /-! ## T6 — end to end (partial)
 
